@@ -9,6 +9,7 @@ use ast_grep_config::{DeserializeEnv, Rule, SerializableRule};
 use ast_grep_core::matcher::MatcherExt;
 use ast_grep_language::SupportLang;
 use proptest::prelude::*;
+use proptest::sample::Index;
 use serde::{Deserialize, Serialize};
 use serde_json::json;
 use std::collections::HashMap;
@@ -27,6 +28,9 @@ pub struct Choice {
   pub src: SrcChoice,
   pub utils: Vec<RC>,
   pub rule: RC,
+  /// a utility that refers to itself through a relation (legitimate recursion over the tree):
+  /// (kind of the utility, kind of the base case, relation / stop form)
+  pub rec: Option<(Index, Index, u8)>,
 }
 
 pub fn strategy(opts: &SrcOpts, depth: u32) -> BoxedStrategy<Choice> {
@@ -34,8 +38,9 @@ pub fn strategy(opts: &SrcOpts, depth: u32) -> BoxedStrategy<Choice> {
     gen::src_choice(opts),
     prop::collection::vec(rc_tree(2), 0..=2),
     rc_tree(depth),
+    prop::option::weighted(0.3, (any::<Index>(), any::<Index>(), 0u8..16)),
   )
-    .prop_map(|(src, utils, rule)| Choice { src, utils, rule })
+    .prop_map(|(src, utils, rule, rec)| Choice { src, utils, rule, rec })
     .boxed()
 }
 
@@ -81,7 +86,32 @@ pub fn interpret_with(
     // later utilities and the main rule may reference earlier ones only (acyclic)
     ctx.util_names.push(name);
   }
-  let rule = ctx.interpret(&ch.rule, 0);
+  if let (Some((k, b, form)), false) = (&ch.rec, ctx.kinds.is_empty()) {
+    // `urec: {kind: K, has|inside: {any: [{kind: B}, {matches: urec}], stopBy}}`: its kind caches
+    // are built while `urec` itself is not registered yet
+    let kind = ctx.kinds[k.index(ctx.kinds.len())].clone();
+    let base = ctx.kinds[b.index(ctx.kinds.len())].clone();
+    let rel = Box::new(Rel {
+      rule: if form & 4 == 0 {
+        GRule::Any(vec![GRule::Kind(base), GRule::Matches("urec".into())])
+      } else {
+        GRule::Any(vec![GRule::Matches("urec".into()), GRule::Kind(base)])
+      },
+      stop: if form & 2 == 0 { Stop::Neighbor } else { Stop::End },
+      field: None,
+    });
+    let body = GRule::Obj(vec![GRule::Kind(kind), if form & 1 == 0 { GRule::Has(rel) } else { GRule::Inside(rel) }]);
+    utils.push(("urec".to_string(), body));
+    ctx.util_names.push("urec".to_string());
+    st.label("recursive_utility");
+  }
+  let mut rule = ctx.interpret(&ch.rule, 0);
+  if let (Some((_, _, form)), true) = (&ch.rec, ctx.util_names.iter().any(|n| n == "urec")) {
+    if form & 8 != 0 {
+      // the recursive utility is the rule itself (or one alternative of it)
+      rule = if form & 4 == 0 { GRule::Matches("urec".into()) } else { GRule::Any(vec![GRule::Matches("urec".into()), rule]) };
+    }
+  }
   for l in &built.labels {
     st.label(l);
   }
